@@ -123,3 +123,23 @@ def add_mgr_bounded(rep, tier, seed):
             rep.add_violation("native/mgr_diff:lane_manager:contract", "assumed lane-manager contract violated on the real code: " + line[0][:200], path, True)
     except Exception as e:
         rep.add_undecided("native lane-manager check could not be built/run: %s" % e)
+
+
+def add_base_bounded(rep, tier, seed):
+    """bounded native end-to-end check of the portable C family at -O1 and -O2"""
+    from . import native
+    try:
+        lmax, reps = (700, 2) if tier == "quick" else (4000, 4)
+        d = native.base_diff(os.path.join(runner.scratch(), "native_base"), lmax, reps, rep.seed)
+        rep.bounded.append({"what": "the five *_ctx_base.c files compiled with gcc -O1 and -O2, end to end through _X_ctx_mgr_submit_base (ENTIRE and random "
+                                    "FIRST/UPDATE/LAST segmentations incl. empty segments): digest == standard padding + round-stepper spec; guards the trusted-base "
+                                    "assumption on type-punned stores (cf. fix 1a3b4e2)",
+                            "label": "bounded", "bound": "every length 0..%d, %d repetitions, per algorithm and optimisation level" % (lmax, reps),
+                            "evaluations": d["calls"], "distinct_nontrivial": d["cases"], "agree": d["ok"], "cmd": d["cmd"]})
+        if not d["ok"]:
+            path = os.path.join(rep.replay_dir(), "base_diff.txt")
+            with open(path, "w") as f:
+                f.write("native/base_diff.c on the real code from /repo\n$ " + d["cmd"] + "\n" + d["text"])
+            rep.add_violation("native/base_diff:base_family:end_to_end", "bounded end-to-end check, real code disagrees with the standard: " + d["text"].split("\n")[0][:220], path, True)
+    except Exception as e:
+        rep.add_undecided("native base-family check could not be built/run: %s" % e)
